@@ -145,16 +145,17 @@ func (o *Observed) ErrCode() string {
 
 // Exec drives one system along one history.
 type Exec struct {
-	Sys     *System
-	Conc    *Conc
-	Vids    map[string]string // symbolic -> server version id
-	Uids    map[string]string // symbolic -> server upload id
-	Host    string            // Host header to use ("" = default)
-	Addr    func(r *Req)      // addressing-mode rewrite applied to every request (C16)
-	RawPath bool              // also set URL.RawPath, as net/http does for a request line whose escaping is not Go's canonical one
-	Api     bool              // call the Backend methods directly instead of the HTTP front end (api.go)
-	Sync    bool              // run the handler on the calling goroutine, let panics propagate
-	Timeout time.Duration
+	Sys      *System
+	Conc     *Conc
+	Vids     map[string]string // symbolic -> server version id
+	Uids     map[string]string // symbolic -> server upload id
+	Host     string            // Host header to use ("" = default)
+	Addr     func(r *Req)      // addressing-mode rewrite applied to every request (C16)
+	RawPath  bool              // also set URL.RawPath, as net/http does for a request line whose escaping is not Go's canonical one
+	ObjQuery string            // appended to object-level requests that have no query of their own (C16)
+	Api      bool              // call the Backend methods directly instead of the HTTP front end (api.go)
+	Sync     bool              // run the handler on the calling goroutine, let panics propagate
+	Timeout  time.Duration
 }
 
 func NewExec(sys *System, conc *Conc) *Exec {
@@ -370,6 +371,9 @@ func (x *Exec) Build(op Op) *Req {
 	case "GetObjectVersion":
 		r := newReq("GET", x.objPath(b, k))
 		r.Query.Set("versionId", x.realVid(op.S("vid")))
+		if op.Has("range") {
+			r.Header.Set("Range", op.S("range"))
+		}
 		return r
 	case "HeadObjectVersion":
 		r := newReq("HEAD", x.objPath(b, k))
@@ -510,6 +514,11 @@ func (x *Exec) Do(op Op) *Observed {
 	r := x.Build(op)
 	if r == nil {
 		return &Observed{NoReq: true}
+	}
+	// C16: a query parameter that only means something on a bucket (?location) rides along on every object-level
+	// request: it must change nothing, however the request is addressed
+	if x.ObjQuery != "" && !op.Has("path") && r.RawQ == "" && len(r.Query) == 0 && strings.Count(strings.Trim(r.Path, "/"), "/") >= 1 {
+		r.RawQ = x.ObjQuery
 	}
 	// C16: the operation is addressed by a raw Host header and URL path
 	if op.Has("path") {
